@@ -602,6 +602,10 @@ func Name_With_Caps(a0 int) error { return callrec.E1(nil, false, callrec.A(a0),
 func UPPER_CASE(v ...types.MalType) (types.MalType, error) {
 	return callrec.E2(nil, false, callrec.A(), callrec.VM(v))
 }
+func Err_typed_value(a0 types.MalType) (error, error) {
+	v, err := callrec.E2(nil, false, callrec.A(a0), nil)
+	return callrec.ValErr{V: v}, err
+}
 func lower(ctx context.Context) { callrec.E0(ctx, true, callrec.A(), nil) }
 func MixedCase123_(a0 types.MalType) (types.MalType, error) {
 	return callrec.E2(nil, false, callrec.A(a0), nil)
@@ -612,227 +616,228 @@ func X(ctx context.Context, a0 string, v ...int) (types.MalType, error) {
 
 // Named: the functions above by shape key (<shape>:<identifier> for the extra spellings).
 var Named = map[string]types.MalType{
-	"c_0_0_0":                Sh_c_0_0_0,
-	"c_0_0_1":                Sh_c_0_0_1,
-	"c_0_0_2":                Sh_c_0_0_2,
-	"c_0_i_0":                Sh_c_0_i_0,
-	"c_0_i_1":                Sh_c_0_i_1,
-	"c_0_i_2":                Sh_c_0_i_2,
-	"c_0_s_0":                Sh_c_0_s_0,
-	"c_0_s_1":                Sh_c_0_s_1,
-	"c_0_s_2":                Sh_c_0_s_2,
-	"c_0_m_0":                Sh_c_0_m_0,
-	"c_0_m_1":                Sh_c_0_m_1,
-	"c_0_m_2":                Sh_c_0_m_2,
-	"c_i_0_0":                Sh_c_i_0_0,
-	"c_i_0_1":                Sh_c_i_0_1,
-	"c_i_0_2":                Sh_c_i_0_2,
-	"c_i_i_0":                Sh_c_i_i_0,
-	"c_i_i_1":                Sh_c_i_i_1,
-	"c_i_i_2":                Sh_c_i_i_2,
-	"c_i_s_0":                Sh_c_i_s_0,
-	"c_i_s_1":                Sh_c_i_s_1,
-	"c_i_s_2":                Sh_c_i_s_2,
-	"c_i_m_0":                Sh_c_i_m_0,
-	"c_i_m_1":                Sh_c_i_m_1,
-	"c_i_m_2":                Sh_c_i_m_2,
-	"c_s_0_0":                Sh_c_s_0_0,
-	"c_s_0_1":                Sh_c_s_0_1,
-	"c_s_0_2":                Sh_c_s_0_2,
-	"c_s_i_0":                Sh_c_s_i_0,
-	"c_s_i_1":                Sh_c_s_i_1,
-	"c_s_i_2":                Sh_c_s_i_2,
-	"c_s_s_0":                Sh_c_s_s_0,
-	"c_s_s_1":                Sh_c_s_s_1,
-	"c_s_s_2":                Sh_c_s_s_2,
-	"c_s_m_0":                Sh_c_s_m_0,
-	"c_s_m_1":                Sh_c_s_m_1,
-	"c_s_m_2":                Sh_c_s_m_2,
-	"c_m_0_0":                Sh_c_m_0_0,
-	"c_m_0_1":                Sh_c_m_0_1,
-	"c_m_0_2":                Sh_c_m_0_2,
-	"c_m_i_0":                Sh_c_m_i_0,
-	"c_m_i_1":                Sh_c_m_i_1,
-	"c_m_i_2":                Sh_c_m_i_2,
-	"c_m_s_0":                Sh_c_m_s_0,
-	"c_m_s_1":                Sh_c_m_s_1,
-	"c_m_s_2":                Sh_c_m_s_2,
-	"c_m_m_0":                Sh_c_m_m_0,
-	"c_m_m_1":                Sh_c_m_m_1,
-	"c_m_m_2":                Sh_c_m_m_2,
-	"c_is_0_0":               Sh_c_is_0_0,
-	"c_is_0_1":               Sh_c_is_0_1,
-	"c_is_0_2":               Sh_c_is_0_2,
-	"c_is_i_0":               Sh_c_is_i_0,
-	"c_is_i_1":               Sh_c_is_i_1,
-	"c_is_i_2":               Sh_c_is_i_2,
-	"c_is_s_0":               Sh_c_is_s_0,
-	"c_is_s_1":               Sh_c_is_s_1,
-	"c_is_s_2":               Sh_c_is_s_2,
-	"c_is_m_0":               Sh_c_is_m_0,
-	"c_is_m_1":               Sh_c_is_m_1,
-	"c_is_m_2":               Sh_c_is_m_2,
-	"c_mi_0_0":               Sh_c_mi_0_0,
-	"c_mi_0_1":               Sh_c_mi_0_1,
-	"c_mi_0_2":               Sh_c_mi_0_2,
-	"c_mi_i_0":               Sh_c_mi_i_0,
-	"c_mi_i_1":               Sh_c_mi_i_1,
-	"c_mi_i_2":               Sh_c_mi_i_2,
-	"c_mi_s_0":               Sh_c_mi_s_0,
-	"c_mi_s_1":               Sh_c_mi_s_1,
-	"c_mi_s_2":               Sh_c_mi_s_2,
-	"c_mi_m_0":               Sh_c_mi_m_0,
-	"c_mi_m_1":               Sh_c_mi_m_1,
-	"c_mi_m_2":               Sh_c_mi_m_2,
-	"c_sm_0_0":               Sh_c_sm_0_0,
-	"c_sm_0_1":               Sh_c_sm_0_1,
-	"c_sm_0_2":               Sh_c_sm_0_2,
-	"c_sm_i_0":               Sh_c_sm_i_0,
-	"c_sm_i_1":               Sh_c_sm_i_1,
-	"c_sm_i_2":               Sh_c_sm_i_2,
-	"c_sm_s_0":               Sh_c_sm_s_0,
-	"c_sm_s_1":               Sh_c_sm_s_1,
-	"c_sm_s_2":               Sh_c_sm_s_2,
-	"c_sm_m_0":               Sh_c_sm_m_0,
-	"c_sm_m_1":               Sh_c_sm_m_1,
-	"c_sm_m_2":               Sh_c_sm_m_2,
-	"c_ism_0_0":              Sh_c_ism_0_0,
-	"c_ism_0_1":              Sh_c_ism_0_1,
-	"c_ism_0_2":              Sh_c_ism_0_2,
-	"c_ism_i_0":              Sh_c_ism_i_0,
-	"c_ism_i_1":              Sh_c_ism_i_1,
-	"c_ism_i_2":              Sh_c_ism_i_2,
-	"c_ism_s_0":              Sh_c_ism_s_0,
-	"c_ism_s_1":              Sh_c_ism_s_1,
-	"c_ism_s_2":              Sh_c_ism_s_2,
-	"c_ism_m_0":              Sh_c_ism_m_0,
-	"c_ism_m_1":              Sh_c_ism_m_1,
-	"c_ism_m_2":              Sh_c_ism_m_2,
-	"c_mms_0_0":              Sh_c_mms_0_0,
-	"c_mms_0_1":              Sh_c_mms_0_1,
-	"c_mms_0_2":              Sh_c_mms_0_2,
-	"c_mms_i_0":              Sh_c_mms_i_0,
-	"c_mms_i_1":              Sh_c_mms_i_1,
-	"c_mms_i_2":              Sh_c_mms_i_2,
-	"c_mms_s_0":              Sh_c_mms_s_0,
-	"c_mms_s_1":              Sh_c_mms_s_1,
-	"c_mms_s_2":              Sh_c_mms_s_2,
-	"c_mms_m_0":              Sh_c_mms_m_0,
-	"c_mms_m_1":              Sh_c_mms_m_1,
-	"c_mms_m_2":              Sh_c_mms_m_2,
-	"n_0_0_0":                Sh_n_0_0_0,
-	"n_0_0_1":                Sh_n_0_0_1,
-	"n_0_0_2":                Sh_n_0_0_2,
-	"n_0_i_0":                Sh_n_0_i_0,
-	"n_0_i_1":                Sh_n_0_i_1,
-	"n_0_i_2":                Sh_n_0_i_2,
-	"n_0_s_0":                Sh_n_0_s_0,
-	"n_0_s_1":                Sh_n_0_s_1,
-	"n_0_s_2":                Sh_n_0_s_2,
-	"n_0_m_0":                Sh_n_0_m_0,
-	"n_0_m_1":                Sh_n_0_m_1,
-	"n_0_m_2":                Sh_n_0_m_2,
-	"n_i_0_0":                Sh_n_i_0_0,
-	"n_i_0_1":                Sh_n_i_0_1,
-	"n_i_0_2":                Sh_n_i_0_2,
-	"n_i_i_0":                Sh_n_i_i_0,
-	"n_i_i_1":                Sh_n_i_i_1,
-	"n_i_i_2":                Sh_n_i_i_2,
-	"n_i_s_0":                Sh_n_i_s_0,
-	"n_i_s_1":                Sh_n_i_s_1,
-	"n_i_s_2":                Sh_n_i_s_2,
-	"n_i_m_0":                Sh_n_i_m_0,
-	"n_i_m_1":                Sh_n_i_m_1,
-	"n_i_m_2":                Sh_n_i_m_2,
-	"n_s_0_0":                Sh_n_s_0_0,
-	"n_s_0_1":                Sh_n_s_0_1,
-	"n_s_0_2":                Sh_n_s_0_2,
-	"n_s_i_0":                Sh_n_s_i_0,
-	"n_s_i_1":                Sh_n_s_i_1,
-	"n_s_i_2":                Sh_n_s_i_2,
-	"n_s_s_0":                Sh_n_s_s_0,
-	"n_s_s_1":                Sh_n_s_s_1,
-	"n_s_s_2":                Sh_n_s_s_2,
-	"n_s_m_0":                Sh_n_s_m_0,
-	"n_s_m_1":                Sh_n_s_m_1,
-	"n_s_m_2":                Sh_n_s_m_2,
-	"n_m_0_0":                Sh_n_m_0_0,
-	"n_m_0_1":                Sh_n_m_0_1,
-	"n_m_0_2":                Sh_n_m_0_2,
-	"n_m_i_0":                Sh_n_m_i_0,
-	"n_m_i_1":                Sh_n_m_i_1,
-	"n_m_i_2":                Sh_n_m_i_2,
-	"n_m_s_0":                Sh_n_m_s_0,
-	"n_m_s_1":                Sh_n_m_s_1,
-	"n_m_s_2":                Sh_n_m_s_2,
-	"n_m_m_0":                Sh_n_m_m_0,
-	"n_m_m_1":                Sh_n_m_m_1,
-	"n_m_m_2":                Sh_n_m_m_2,
-	"n_is_0_0":               Sh_n_is_0_0,
-	"n_is_0_1":               Sh_n_is_0_1,
-	"n_is_0_2":               Sh_n_is_0_2,
-	"n_is_i_0":               Sh_n_is_i_0,
-	"n_is_i_1":               Sh_n_is_i_1,
-	"n_is_i_2":               Sh_n_is_i_2,
-	"n_is_s_0":               Sh_n_is_s_0,
-	"n_is_s_1":               Sh_n_is_s_1,
-	"n_is_s_2":               Sh_n_is_s_2,
-	"n_is_m_0":               Sh_n_is_m_0,
-	"n_is_m_1":               Sh_n_is_m_1,
-	"n_is_m_2":               Sh_n_is_m_2,
-	"n_mi_0_0":               Sh_n_mi_0_0,
-	"n_mi_0_1":               Sh_n_mi_0_1,
-	"n_mi_0_2":               Sh_n_mi_0_2,
-	"n_mi_i_0":               Sh_n_mi_i_0,
-	"n_mi_i_1":               Sh_n_mi_i_1,
-	"n_mi_i_2":               Sh_n_mi_i_2,
-	"n_mi_s_0":               Sh_n_mi_s_0,
-	"n_mi_s_1":               Sh_n_mi_s_1,
-	"n_mi_s_2":               Sh_n_mi_s_2,
-	"n_mi_m_0":               Sh_n_mi_m_0,
-	"n_mi_m_1":               Sh_n_mi_m_1,
-	"n_mi_m_2":               Sh_n_mi_m_2,
-	"n_sm_0_0":               Sh_n_sm_0_0,
-	"n_sm_0_1":               Sh_n_sm_0_1,
-	"n_sm_0_2":               Sh_n_sm_0_2,
-	"n_sm_i_0":               Sh_n_sm_i_0,
-	"n_sm_i_1":               Sh_n_sm_i_1,
-	"n_sm_i_2":               Sh_n_sm_i_2,
-	"n_sm_s_0":               Sh_n_sm_s_0,
-	"n_sm_s_1":               Sh_n_sm_s_1,
-	"n_sm_s_2":               Sh_n_sm_s_2,
-	"n_sm_m_0":               Sh_n_sm_m_0,
-	"n_sm_m_1":               Sh_n_sm_m_1,
-	"n_sm_m_2":               Sh_n_sm_m_2,
-	"n_ism_0_0":              Sh_n_ism_0_0,
-	"n_ism_0_1":              Sh_n_ism_0_1,
-	"n_ism_0_2":              Sh_n_ism_0_2,
-	"n_ism_i_0":              Sh_n_ism_i_0,
-	"n_ism_i_1":              Sh_n_ism_i_1,
-	"n_ism_i_2":              Sh_n_ism_i_2,
-	"n_ism_s_0":              Sh_n_ism_s_0,
-	"n_ism_s_1":              Sh_n_ism_s_1,
-	"n_ism_s_2":              Sh_n_ism_s_2,
-	"n_ism_m_0":              Sh_n_ism_m_0,
-	"n_ism_m_1":              Sh_n_ism_m_1,
-	"n_ism_m_2":              Sh_n_ism_m_2,
-	"n_mms_0_0":              Sh_n_mms_0_0,
-	"n_mms_0_1":              Sh_n_mms_0_1,
-	"n_mms_0_2":              Sh_n_mms_0_2,
-	"n_mms_i_0":              Sh_n_mms_i_0,
-	"n_mms_i_1":              Sh_n_mms_i_1,
-	"n_mms_i_2":              Sh_n_mms_i_2,
-	"n_mms_s_0":              Sh_n_mms_s_0,
-	"n_mms_s_1":              Sh_n_mms_s_1,
-	"n_mms_s_2":              Sh_n_mms_s_2,
-	"n_mms_m_0":              Sh_n_mms_m_0,
-	"n_mms_m_1":              Sh_n_mms_m_1,
-	"n_mms_m_2":              Sh_n_mms_m_2,
-	"n_i_0_1:Name_With_Caps": Name_With_Caps,
-	"n_0_m_2:UPPER_CASE":     UPPER_CASE,
-	"c_0_0_0:lower":          lower,
-	"n_m_0_2:MixedCase123_":  MixedCase123_,
-	"c_s_i_2:X":              X,
+	"c_0_0_0":                 Sh_c_0_0_0,
+	"c_0_0_1":                 Sh_c_0_0_1,
+	"c_0_0_2":                 Sh_c_0_0_2,
+	"c_0_i_0":                 Sh_c_0_i_0,
+	"c_0_i_1":                 Sh_c_0_i_1,
+	"c_0_i_2":                 Sh_c_0_i_2,
+	"c_0_s_0":                 Sh_c_0_s_0,
+	"c_0_s_1":                 Sh_c_0_s_1,
+	"c_0_s_2":                 Sh_c_0_s_2,
+	"c_0_m_0":                 Sh_c_0_m_0,
+	"c_0_m_1":                 Sh_c_0_m_1,
+	"c_0_m_2":                 Sh_c_0_m_2,
+	"c_i_0_0":                 Sh_c_i_0_0,
+	"c_i_0_1":                 Sh_c_i_0_1,
+	"c_i_0_2":                 Sh_c_i_0_2,
+	"c_i_i_0":                 Sh_c_i_i_0,
+	"c_i_i_1":                 Sh_c_i_i_1,
+	"c_i_i_2":                 Sh_c_i_i_2,
+	"c_i_s_0":                 Sh_c_i_s_0,
+	"c_i_s_1":                 Sh_c_i_s_1,
+	"c_i_s_2":                 Sh_c_i_s_2,
+	"c_i_m_0":                 Sh_c_i_m_0,
+	"c_i_m_1":                 Sh_c_i_m_1,
+	"c_i_m_2":                 Sh_c_i_m_2,
+	"c_s_0_0":                 Sh_c_s_0_0,
+	"c_s_0_1":                 Sh_c_s_0_1,
+	"c_s_0_2":                 Sh_c_s_0_2,
+	"c_s_i_0":                 Sh_c_s_i_0,
+	"c_s_i_1":                 Sh_c_s_i_1,
+	"c_s_i_2":                 Sh_c_s_i_2,
+	"c_s_s_0":                 Sh_c_s_s_0,
+	"c_s_s_1":                 Sh_c_s_s_1,
+	"c_s_s_2":                 Sh_c_s_s_2,
+	"c_s_m_0":                 Sh_c_s_m_0,
+	"c_s_m_1":                 Sh_c_s_m_1,
+	"c_s_m_2":                 Sh_c_s_m_2,
+	"c_m_0_0":                 Sh_c_m_0_0,
+	"c_m_0_1":                 Sh_c_m_0_1,
+	"c_m_0_2":                 Sh_c_m_0_2,
+	"c_m_i_0":                 Sh_c_m_i_0,
+	"c_m_i_1":                 Sh_c_m_i_1,
+	"c_m_i_2":                 Sh_c_m_i_2,
+	"c_m_s_0":                 Sh_c_m_s_0,
+	"c_m_s_1":                 Sh_c_m_s_1,
+	"c_m_s_2":                 Sh_c_m_s_2,
+	"c_m_m_0":                 Sh_c_m_m_0,
+	"c_m_m_1":                 Sh_c_m_m_1,
+	"c_m_m_2":                 Sh_c_m_m_2,
+	"c_is_0_0":                Sh_c_is_0_0,
+	"c_is_0_1":                Sh_c_is_0_1,
+	"c_is_0_2":                Sh_c_is_0_2,
+	"c_is_i_0":                Sh_c_is_i_0,
+	"c_is_i_1":                Sh_c_is_i_1,
+	"c_is_i_2":                Sh_c_is_i_2,
+	"c_is_s_0":                Sh_c_is_s_0,
+	"c_is_s_1":                Sh_c_is_s_1,
+	"c_is_s_2":                Sh_c_is_s_2,
+	"c_is_m_0":                Sh_c_is_m_0,
+	"c_is_m_1":                Sh_c_is_m_1,
+	"c_is_m_2":                Sh_c_is_m_2,
+	"c_mi_0_0":                Sh_c_mi_0_0,
+	"c_mi_0_1":                Sh_c_mi_0_1,
+	"c_mi_0_2":                Sh_c_mi_0_2,
+	"c_mi_i_0":                Sh_c_mi_i_0,
+	"c_mi_i_1":                Sh_c_mi_i_1,
+	"c_mi_i_2":                Sh_c_mi_i_2,
+	"c_mi_s_0":                Sh_c_mi_s_0,
+	"c_mi_s_1":                Sh_c_mi_s_1,
+	"c_mi_s_2":                Sh_c_mi_s_2,
+	"c_mi_m_0":                Sh_c_mi_m_0,
+	"c_mi_m_1":                Sh_c_mi_m_1,
+	"c_mi_m_2":                Sh_c_mi_m_2,
+	"c_sm_0_0":                Sh_c_sm_0_0,
+	"c_sm_0_1":                Sh_c_sm_0_1,
+	"c_sm_0_2":                Sh_c_sm_0_2,
+	"c_sm_i_0":                Sh_c_sm_i_0,
+	"c_sm_i_1":                Sh_c_sm_i_1,
+	"c_sm_i_2":                Sh_c_sm_i_2,
+	"c_sm_s_0":                Sh_c_sm_s_0,
+	"c_sm_s_1":                Sh_c_sm_s_1,
+	"c_sm_s_2":                Sh_c_sm_s_2,
+	"c_sm_m_0":                Sh_c_sm_m_0,
+	"c_sm_m_1":                Sh_c_sm_m_1,
+	"c_sm_m_2":                Sh_c_sm_m_2,
+	"c_ism_0_0":               Sh_c_ism_0_0,
+	"c_ism_0_1":               Sh_c_ism_0_1,
+	"c_ism_0_2":               Sh_c_ism_0_2,
+	"c_ism_i_0":               Sh_c_ism_i_0,
+	"c_ism_i_1":               Sh_c_ism_i_1,
+	"c_ism_i_2":               Sh_c_ism_i_2,
+	"c_ism_s_0":               Sh_c_ism_s_0,
+	"c_ism_s_1":               Sh_c_ism_s_1,
+	"c_ism_s_2":               Sh_c_ism_s_2,
+	"c_ism_m_0":               Sh_c_ism_m_0,
+	"c_ism_m_1":               Sh_c_ism_m_1,
+	"c_ism_m_2":               Sh_c_ism_m_2,
+	"c_mms_0_0":               Sh_c_mms_0_0,
+	"c_mms_0_1":               Sh_c_mms_0_1,
+	"c_mms_0_2":               Sh_c_mms_0_2,
+	"c_mms_i_0":               Sh_c_mms_i_0,
+	"c_mms_i_1":               Sh_c_mms_i_1,
+	"c_mms_i_2":               Sh_c_mms_i_2,
+	"c_mms_s_0":               Sh_c_mms_s_0,
+	"c_mms_s_1":               Sh_c_mms_s_1,
+	"c_mms_s_2":               Sh_c_mms_s_2,
+	"c_mms_m_0":               Sh_c_mms_m_0,
+	"c_mms_m_1":               Sh_c_mms_m_1,
+	"c_mms_m_2":               Sh_c_mms_m_2,
+	"n_0_0_0":                 Sh_n_0_0_0,
+	"n_0_0_1":                 Sh_n_0_0_1,
+	"n_0_0_2":                 Sh_n_0_0_2,
+	"n_0_i_0":                 Sh_n_0_i_0,
+	"n_0_i_1":                 Sh_n_0_i_1,
+	"n_0_i_2":                 Sh_n_0_i_2,
+	"n_0_s_0":                 Sh_n_0_s_0,
+	"n_0_s_1":                 Sh_n_0_s_1,
+	"n_0_s_2":                 Sh_n_0_s_2,
+	"n_0_m_0":                 Sh_n_0_m_0,
+	"n_0_m_1":                 Sh_n_0_m_1,
+	"n_0_m_2":                 Sh_n_0_m_2,
+	"n_i_0_0":                 Sh_n_i_0_0,
+	"n_i_0_1":                 Sh_n_i_0_1,
+	"n_i_0_2":                 Sh_n_i_0_2,
+	"n_i_i_0":                 Sh_n_i_i_0,
+	"n_i_i_1":                 Sh_n_i_i_1,
+	"n_i_i_2":                 Sh_n_i_i_2,
+	"n_i_s_0":                 Sh_n_i_s_0,
+	"n_i_s_1":                 Sh_n_i_s_1,
+	"n_i_s_2":                 Sh_n_i_s_2,
+	"n_i_m_0":                 Sh_n_i_m_0,
+	"n_i_m_1":                 Sh_n_i_m_1,
+	"n_i_m_2":                 Sh_n_i_m_2,
+	"n_s_0_0":                 Sh_n_s_0_0,
+	"n_s_0_1":                 Sh_n_s_0_1,
+	"n_s_0_2":                 Sh_n_s_0_2,
+	"n_s_i_0":                 Sh_n_s_i_0,
+	"n_s_i_1":                 Sh_n_s_i_1,
+	"n_s_i_2":                 Sh_n_s_i_2,
+	"n_s_s_0":                 Sh_n_s_s_0,
+	"n_s_s_1":                 Sh_n_s_s_1,
+	"n_s_s_2":                 Sh_n_s_s_2,
+	"n_s_m_0":                 Sh_n_s_m_0,
+	"n_s_m_1":                 Sh_n_s_m_1,
+	"n_s_m_2":                 Sh_n_s_m_2,
+	"n_m_0_0":                 Sh_n_m_0_0,
+	"n_m_0_1":                 Sh_n_m_0_1,
+	"n_m_0_2":                 Sh_n_m_0_2,
+	"n_m_i_0":                 Sh_n_m_i_0,
+	"n_m_i_1":                 Sh_n_m_i_1,
+	"n_m_i_2":                 Sh_n_m_i_2,
+	"n_m_s_0":                 Sh_n_m_s_0,
+	"n_m_s_1":                 Sh_n_m_s_1,
+	"n_m_s_2":                 Sh_n_m_s_2,
+	"n_m_m_0":                 Sh_n_m_m_0,
+	"n_m_m_1":                 Sh_n_m_m_1,
+	"n_m_m_2":                 Sh_n_m_m_2,
+	"n_is_0_0":                Sh_n_is_0_0,
+	"n_is_0_1":                Sh_n_is_0_1,
+	"n_is_0_2":                Sh_n_is_0_2,
+	"n_is_i_0":                Sh_n_is_i_0,
+	"n_is_i_1":                Sh_n_is_i_1,
+	"n_is_i_2":                Sh_n_is_i_2,
+	"n_is_s_0":                Sh_n_is_s_0,
+	"n_is_s_1":                Sh_n_is_s_1,
+	"n_is_s_2":                Sh_n_is_s_2,
+	"n_is_m_0":                Sh_n_is_m_0,
+	"n_is_m_1":                Sh_n_is_m_1,
+	"n_is_m_2":                Sh_n_is_m_2,
+	"n_mi_0_0":                Sh_n_mi_0_0,
+	"n_mi_0_1":                Sh_n_mi_0_1,
+	"n_mi_0_2":                Sh_n_mi_0_2,
+	"n_mi_i_0":                Sh_n_mi_i_0,
+	"n_mi_i_1":                Sh_n_mi_i_1,
+	"n_mi_i_2":                Sh_n_mi_i_2,
+	"n_mi_s_0":                Sh_n_mi_s_0,
+	"n_mi_s_1":                Sh_n_mi_s_1,
+	"n_mi_s_2":                Sh_n_mi_s_2,
+	"n_mi_m_0":                Sh_n_mi_m_0,
+	"n_mi_m_1":                Sh_n_mi_m_1,
+	"n_mi_m_2":                Sh_n_mi_m_2,
+	"n_sm_0_0":                Sh_n_sm_0_0,
+	"n_sm_0_1":                Sh_n_sm_0_1,
+	"n_sm_0_2":                Sh_n_sm_0_2,
+	"n_sm_i_0":                Sh_n_sm_i_0,
+	"n_sm_i_1":                Sh_n_sm_i_1,
+	"n_sm_i_2":                Sh_n_sm_i_2,
+	"n_sm_s_0":                Sh_n_sm_s_0,
+	"n_sm_s_1":                Sh_n_sm_s_1,
+	"n_sm_s_2":                Sh_n_sm_s_2,
+	"n_sm_m_0":                Sh_n_sm_m_0,
+	"n_sm_m_1":                Sh_n_sm_m_1,
+	"n_sm_m_2":                Sh_n_sm_m_2,
+	"n_ism_0_0":               Sh_n_ism_0_0,
+	"n_ism_0_1":               Sh_n_ism_0_1,
+	"n_ism_0_2":               Sh_n_ism_0_2,
+	"n_ism_i_0":               Sh_n_ism_i_0,
+	"n_ism_i_1":               Sh_n_ism_i_1,
+	"n_ism_i_2":               Sh_n_ism_i_2,
+	"n_ism_s_0":               Sh_n_ism_s_0,
+	"n_ism_s_1":               Sh_n_ism_s_1,
+	"n_ism_s_2":               Sh_n_ism_s_2,
+	"n_ism_m_0":               Sh_n_ism_m_0,
+	"n_ism_m_1":               Sh_n_ism_m_1,
+	"n_ism_m_2":               Sh_n_ism_m_2,
+	"n_mms_0_0":               Sh_n_mms_0_0,
+	"n_mms_0_1":               Sh_n_mms_0_1,
+	"n_mms_0_2":               Sh_n_mms_0_2,
+	"n_mms_i_0":               Sh_n_mms_i_0,
+	"n_mms_i_1":               Sh_n_mms_i_1,
+	"n_mms_i_2":               Sh_n_mms_i_2,
+	"n_mms_s_0":               Sh_n_mms_s_0,
+	"n_mms_s_1":               Sh_n_mms_s_1,
+	"n_mms_s_2":               Sh_n_mms_s_2,
+	"n_mms_m_0":               Sh_n_mms_m_0,
+	"n_mms_m_1":               Sh_n_mms_m_1,
+	"n_mms_m_2":               Sh_n_mms_m_2,
+	"n_i_0_1:Name_With_Caps":  Name_With_Caps,
+	"n_0_m_2:UPPER_CASE":      UPPER_CASE,
+	"c_0_0_0:lower":           lower,
+	"n_m_0_2:Err_typed_value": Err_typed_value,
+	"n_m_0_2:MixedCase123_":   MixedCase123_,
+	"c_s_i_2:X":               X,
 }
 
 // Closures: the same shapes as function literals (runtime name <PkgPath>.Closures.func<N>).
